@@ -82,6 +82,52 @@ class BuildVariableNumbers(Contract):
     ensures = {"fields-as-described": lambda s: BuildVariableNumbers.ok(s)}
 
 
+# every data type CiA 301 defines in the static data types area 0x01..0x1B (0x0E and 0x17 are reserved and left
+# unconstrained); the library's own tables lack TIME_OF_DAY 0x0C and TIME_DIFFERENCE 0x0D, an EDS may still describe them
+ALL_CODES = {"0x%02X" % c: c for c in range(0x01, 0x1C) if c not in (0x0E, 0x17)}
+NON_NUMERIC = (0x08, 0x11, 0x09, 0x0A, 0x0B, 0x0F)       # REAL32/64, the three string types, DOMAIN
+
+
+@contract
+class BuildVariableDataType(Contract):
+    """build_variable keeps the described data type for EVERY data type code CiA 301 defines in 0x01..0x1B (also the ones the library has no
+    codec for: TIME_OF_DAY, TIME_DIFFERENCE), and for all of them that are not strings / reals / DOMAIN the default
+    and parameter values are read as the numbers they spell"""
+    target = "canopen.objectdictionary.eds:build_variable"
+    id = "BuildVariableDataType"
+    functions = ("canopen.objectdictionary.eds:_convert_variable", "canopen.objectdictionary:ODVariable.__init__")
+    props = ("C08", "C14")
+    # two families, so that a wrong type is reported even where the wrong type's value conversion is outside the engine
+    cases = dict([(k, (c, False)) for k, c in ALL_CODES.items()] +
+                 [(k + "/values", (c, True)) for k, c in ALL_CODES.items() if c not in NON_NUMERIC])
+
+    def setup(self, w, case):
+        code, numeric = case
+        opts = {"ParameterName": "Some name", "DataType": "0x%04X" % code, "AccessType": "ro", "PDOMapping": "0"}
+        dflt = val = None
+        if numeric:
+            dflt = w.int("default", 0, 0xFF)
+            val = w.int("value", 0, 0xFF)
+            opts["DefaultValue"] = w.inttext(dflt)
+            opts["ParameterValue"] = w.inttext(val, "%d")
+        cfg = mk_cfg(w, "2000", opts)
+        w.pre.update(code=code, numeric=numeric, dflt=dflt, val=val)
+        return Call(("func", EDS, "build_variable"), [cfg, "2000", None, 0x2000, 0])
+
+    @staticmethod
+    def ok(s):
+        p = s.pre
+        if not s.returned or not isinstance(s.ret, SObj):
+            return False
+        f = s.ret.fields
+        r = And(S.eq(f["data_type"], p["code"]), f["access_type"] == "ro", Not(f["pdo_mappable"]))
+        if p["numeric"]:
+            r = And(r, S.eq(f["default"], p["dflt"]), S.eq(f["value"], p["val"]))
+        return r
+
+    ensures = {"type-kept_numbers-read": lambda s: BuildVariableDataType.ok(s)}
+
+
 @contract
 class RevertConvert(Contract):
     """export then import of a number: _convert_variable(_revert_variable(v)) == v for every value of the type,
